@@ -2,7 +2,7 @@
 
 Engine: harness/h_rsa.c (flavour asan, linked with OpenSSL libcrypto).  See
 DESIGN.md section C10.  The work is a fixed table of units (fixture key x
-section x implementation, one 'compute' unit per key, keygen units); unit u runs
+section x implementation, one 'compute' unit per key, keygen units, one 'limits' unit per implementation); unit u runs
 on worker (u + u//16) % 16 with PRNG stream (seed, u).  --cases is the per-unit budget in
 "512-bit i15 private operations"; iteration counts derive from it, never from
 time.
@@ -23,9 +23,14 @@ RULE = ('cases = comparisons of one library result with the reference (OpenSSL B
 ASSUMPTIONS = [
     'OpenSSL libcrypto (BN_mod_exp, RSA_sign/RSA_verify, EVP PSS and OAEP, RSA_public_encrypt type 2, BN_check_prime) is a correct reference',
     'the RFC 8017 encoders/decoders written in the harness are correct (each is cross-checked against OpenSSL at run time; a mismatch aborts as harness failure)',
-    'inputs outside the documented contract (private operation with x >= n, wrong n_bitlen, oversized modulus in the raw public op, '
-    'compute_privexp with p or q = 1 mod 4) are executed under ASan/UBSan but their results are not judged',
-    'rejection of even prime factors by the private operation is demanded by the property statement (bearssl_rsa.h only says "0 on error")',
+    'inputs outside the documented contract (wrong n_bitlen, oversized modulus in the raw public op, '
+    'compute_privexp with p or q = 1 mod 4, a random 400-byte "factor") are executed under ASan/UBSan but their results are not judged',
+    'rejection of even prime factors and of operands not below the modulus by the private operation is demanded by the property statement '
+    '(bearssl_rsa.h only says "0 on error"; OAEP and TLS decryption get their range check from it)',
+    'factors or moduli beyond the documented maxima (2080 / 4096 bits) and factors shorter than 5 bytes: each function may either report an error '
+    'or return the mathematically correct value (the header does not say where each internal limit lies); at the documented maximum success is required',
+    'oaep_decrypt of ciphertext + n: only the returned value (0) is judged; that *len is overwritten although the call fails '
+    '(header: "*len is unmodified") is counted as observed_oaep_ct_plus_n_len_modified and not flagged',
     'sampled keys and operands; the distribution of generated keys is not assessed',
 ]
 EVAL = ['cmp_total']
@@ -36,7 +41,10 @@ REQUIRED = ['cmp_total', 'cmp_raw_pub', 'cmp_raw_priv', 'cmp_raw_inverse', 'cmp_
             'cmp_oaep_encrypt_openssl_decrypts', 'cmp_oaep_decrypt_openssl_ct', 'cmp_oaep_strict_structure',
             'cmp_oaep_strict_altered_byte', 'cmp_tls_decrypt_openssl_ct', 'cmp_tls_strict_altered_byte',
             'cmp_keygen_primes', 'cmp_keygen_sign', 'cmp_compute_modulus', 'cmp_compute_pubexp',
-            'cmp_compute_privexp', 'cmp_raw_priv_even', 'cmp_raw_pub_range']
+            'cmp_compute_privexp', 'cmp_raw_priv_even', 'cmp_raw_pub_range', 'cmp_raw_priv_range',
+            'cmp_oaep_strict_ct_plus_n', 'cmp_tls_strict_ct_plus_n', 'cmp_compute_privexp_not_invertible',
+            'cmp_raw_pub_full_exponent', 'cmp_limits_priv', 'cmp_limits_modulus', 'cmp_limits_pubexp',
+            'cmp_limits_privexp', 'raw_priv_view_topup']
 
 NWORKERS = 16
 CASES = {'quick': 40, 'thorough': 200}
